@@ -2,8 +2,8 @@ SPECIFICATION Spec
 CONSTANTS
   CAP = 2
   N = 6
-  STRICT = FALSE
-  CANCELREJ = FALSE
+  STRICT = TRUE
+  CANCELREJ = TRUE
   FAST = TRUE
 INVARIANT FloodBound
 CHECK_DEADLOCK FALSE
